@@ -77,6 +77,16 @@ func (c *Ctx) T(fn *ssa.Function) *Terms {
 	return t
 }
 
+// TermFuncs lists the functions whose value numbering a rule has used so far, by name.
+func (c *Ctx) TermFuncs() []*ssa.Function {
+	var out []*ssa.Function
+	for fn := range c.terms {
+		out = append(out, fn)
+	}
+	sort.Slice(out, func(i, j int) bool { return FuncName(out[i]) < FuncName(out[j]) })
+	return out
+}
+
 // F returns the (cached) guard facts of fn.
 func (c *Ctx) F(fn *ssa.Function) *FuncFacts {
 	if f, ok := c.facts[fn]; ok {
